@@ -137,6 +137,35 @@ def run_big(ctx):
     m.close()
 
 
+def run_multiarray(ctx):
+    """records with several arrays whose items straddle the reader's 64 KiB refills: an array decoded before a refill must keep its values
+    (it must not be a view of the reader's buffer)"""
+    f64t = P("float64")
+    pkg = Pkg("MultiArr", [Rec("MaPair", [("head", A(f64t, None)), ("n", P("int32")), ("tail", A(f64t, None)), ("small", A(P("uint8"), None))]),
+                           Rec("MaFix", [("head", A(P("float32"), ((None, 4),))), ("tail", V(P("float64")))]),
+                           Proto("MaP", [("pairs", S(N("MaPair"))), ("fixes", S(N("MaFix"))), ("end", P("int32"))])])
+    m = rt.prepare_model(ctx, "multiarr", pkg, ["plain"])
+    if m is None:
+        raise Inconclusive("multi-array model did not build")
+    c = m.codec
+    r = rng("C03ma")
+    from vlib.refcodec import f32, f64
+    pairs = [[((4,), [f64(float(1000 * i + j)) for j in range(4)]), i, ((r.choice([900, 1000, 1100]),), None), ((5,), [i % 251] * 5)] for i in range(40)]
+    for p in pairs:
+        p[2] = (p[2][0], [f64(float(p[1]) + 0.5 * j) for j in range(p[2][0][0])])
+    fixes = [[((4,), [f32(float(i + j)) for j in range(4)]), [f64(float(i * 7 + j)) for j in range(r.choice([700, 900]))]] for i in range(30)]
+    vals = [pairs, fixes, 77]
+    proto = pkg.find("MaP")
+    data = c.encode_stream(proto, m.schema("MaP"), vals)
+    ctx.case(("multiarray", len(data)))
+    for ep in (rt.PyEndpoint(m), rt.PyEndpoint(m, mode="list"), rt.CppEndpoint(m, "plain")):
+        for ofmt in ("bin", "ndjson"):
+            rr = ep.copy("MaP", "bin", ofmt, data)
+            ctx.ev(); ctx.count("multiarray." + ep.name)
+            rt.judge(ctx, m, proto, vals, data, rr, ep.name, ofmt, "multi-array records over %d bytes (%s -> %s)" % (len(data), ep.name, ofmt), {"multiarray": True})
+    m.close()
+
+
 def run_nulltag(ctx):
     """null in a *tagged* nullable union (cases share a JSON kind): the NDJSON spelling of the null case is not documented, so the only oracle is
     portability - whatever one language writes the other must read - plus both spellings ({"null": null} and a bare null) fed as reference input."""
@@ -223,6 +252,7 @@ def run(ctx):
     pmap(work, keys, workers=8)
     pmap(lambda key: run_py_modes(ctx, key + "m", corpus.ser_package(key, depth=3), 4), keys[: (3 if quick else 30)], workers=8)
     run_nulltag(ctx)
+    run_multiarray(ctx)
     run_union_matrix(ctx, quick)
     run_sweep(ctx, range(-12, 3) if not quick else range(-11, 2))
     run_big(ctx)
